@@ -87,6 +87,23 @@ def numkey_case(rng):
     return {"steps": [{"merge": {"id": "D0", "parents": [], "data": doc}}, {"outdocs": True}, {"out": "json"}], "env": {}}
 
 
+def validate_order_case(rng):
+    """a map that must be rejected for TWO reasons of different kinds (an unset $required and a stray directive) under
+    different keys, plain or under $encode: rejected every time, whichever the validator meets first"""
+    bads = ["$required", "$nosuch", "$delete", "$merg:x", "$match"]
+    m = {}
+    for i, b in enumerate(rng.sample(bads, rng.randint(2, 3))):
+        if rng.random() < 0.7:
+            m["k%d" % i] = b
+        else:
+            m[b] = i
+    m["ok"] = 1
+    if rng.random() < 0.6:
+        m["$encode"] = rng.choice(["json", "yaml", "base64", "values", ["values", "join:,"]])
+    doc = {"x": m, "y": 1} if rng.random() < 0.7 else {"l": [m, 1]}
+    return {"steps": [{"merge": {"id": "D0", "parents": [], "data": doc}}, {"outdocs": True}, {"out": "json"}], "env": {}}
+
+
 def casefold_case(rng):
     """keys that differ only by letter case, and references spelled in yet another case: which key a reference finds
     (none: an error) must not depend on map iteration order"""
@@ -149,6 +166,8 @@ def gen_case(rng):
         return casefold_case(rng)
     if r0 < 0.08:
         return numkey_case(rng)
+    if r0 < 0.1:
+        return validate_order_case(rng)
     if r0 < 0.1:
         return retained_case(rng)
     if r0 < 0.13:
